@@ -303,7 +303,8 @@ CHECKS["C09"] = dict(
          "issue a token exactly for matching credentials of a user connected to the root through live edges (model "
          "reachability), wrong password / e-mail never; GET /v1/nodes with the issued token lists only nodes inside the live "
          "subtrees of the parents of the user's live placements, and those parents. Bus: a TCP instance with a drawn token "
-         "refuses connections without / with another token and accepts the right one. A short-lived token is used while valid and must be refused after it expired. Non-trivial: HTTP = a structurally "
+         "refuses connections without / with another token and accepts the right one; the same on whole instances started through "
+         "server.NewServer (the code that configures the embedded bus), plain and with a TLS certificate made for the test. A short-lived token is used while valid and must be refused after it expired. Non-trivial: HTTP = a structurally "
          "valid but unauthorised JWT on a mutating method; login = a user with >= 2 placements of which >= 1 is deleted.",
     assumptions=["forms the statement does not decide (lowercase scheme, surplus blanks, a changed last base64 character) are observed, not judged",
                  "the auth token is non-empty (the property is conditional on an instance configured with one)"],
